@@ -1,7 +1,131 @@
-import Atomman.Prelude
-open Atomman
+import Atomman.C15
+open Atomman Atomman.C15
 
-/-- stub: replaced when the C15 model is built. -/
-def handleC15 (_toks : List String) : String := err "op"
+/-!
+  Line protocol of the C15 driver (stateful: the current system lives in the driver).
 
-def main : IO Unit := runDriver handleC15
+  `sys  v00 … v22  ox oy oz  px py pz  nsym  nkeys {key width}*  hasold  natoms {atype x y z vals… [old]}*`
+        sets the current system, reply `ok <dump>`
+  `op name  hasPos x y z  hasPtd i  hasDb x y z  scale  atol  hasT t  hasO o  nkw {key len vals…}*`
+        name ∈ vacancy | interstitial | substitutional | dumbbell | point:<ptd_type>
+        applies the insertion to the current system; reply `ok <dump>` (state replaced) or `err:<class>`
+        (state kept)
+  `sites  x y z  scale  atol`   reply: the indices matched by the site search
+-/
+
+abbrev P := StateT (List String) Option
+
+def tok : P String := do
+  match (← get) with
+  | [] => failure
+  | t :: r => set r; pure t
+
+def pRat : P Rat := do match parseRat? (← tok) with | some r => pure r | none => failure
+def pInt : P Int := do match (← tok).toInt? with | some r => pure r | none => failure
+def pNat : P Nat := do match (← tok).toNat? with | some r => pure r | none => failure
+def pBool : P Bool := do match parseBool? (← tok) with | some r => pure r | none => failure
+def pV3 : P (V3 Rat) := do let x ← pRat; let y ← pRat; let z ← pRat; pure ⟨x, y, z⟩
+def pRep {α : Type} (n : Nat) (p : P α) : P (List α) := (List.range n).mapM fun _ => p
+def pOpt {α : Type} (p : P α) : P (Option α) := do
+  let b ← pBool; let v ← p; pure (if b then some v else none)
+
+def pSys : P (Sys Rat) := do
+  let r0 ← pV3; let r1 ← pV3; let r2 ← pV3; let o ← pV3
+  let px ← pBool; let py ← pBool; let pz ← pBool
+  let nsym ← pNat
+  let nkeys ← pNat
+  let kws ← pRep nkeys (do let k ← tok; let w ← pNat; pure (k, w))
+  let hasold ← pBool
+  let n ← pNat
+  let rows ← pRep n (do
+    let t ← pInt; let p ← pV3
+    let props ← kws.mapM fun kw => pRep kw.2 pRat
+    let o ← if hasold then (do let v ← pInt; pure (some v)) else pure none
+    pure (({ atype := t, pos := p, props := props } : Atom Rat), o))
+  pure { box := ⟨⟨r0, r1, r2⟩, o⟩, pbc := (px, py, pz), nsym := nsym, keys := kws.map (·.1),
+         atoms := rows.map (·.1), old := if hasold then some (rows.filterMap (·.2)) else none }
+
+def dumpSys (s : Sys Rat) : String :=
+  let head := showRats (s.box.vects.toList ++ s.box.origin.toList) ++ " " ++
+    showBool s.pbc.1 ++ " " ++ showBool s.pbc.2.1 ++ " " ++ showBool s.pbc.2.2 ++ " " ++
+    toString s.nsym ++ " " ++ toString s.keys.length
+  let widths := match s.atoms.head? with
+    | some a => a.props.map (·.length)
+    | none => s.keys.map fun _ => 0
+  let keys := (List.zipWith (fun k (w : Nat) => " " ++ k ++ " " ++ toString w) s.keys widths).foldl (· ++ ·) ""
+  let hasold := s.old.isSome
+  let col := s.old.getD []
+  let rows := (s.atoms.zipIdx).map fun (a, j) =>
+    let vals := a.pos.toList ++ a.props.flatten
+    " " ++ toString a.atype ++ " " ++ showRats vals ++
+      (if hasold then " " ++ (match col[j]? with | some v => toString v | none => "?") else "")
+  head ++ keys ++ " " ++ showBool hasold ++ " " ++ toString s.atoms.length ++ rows.foldl (· ++ ·) ""
+
+structure OpArgs where
+  name : String
+  pos : Option (V3 Rat)
+  ptd : Option Int
+  db : Option (V3 Rat)
+  scale : Bool
+  atol : Rat
+  kw : Kw Rat
+
+def pOp : P OpArgs := do
+  let name ← tok
+  let pos ← pOpt pV3
+  let ptd ← pOpt pInt
+  let db ← pOpt pV3
+  let scale ← pBool
+  let atol ← pRat
+  let t ← pOpt pInt
+  let o ← pOpt pInt
+  let nkw ← pNat
+  let extra ← pRep nkw (do let k ← tok; let w ← pNat; let v ← pRep w pRat; pure (k, v))
+  pure { name, pos, ptd, db, scale, atol, kw := { atype := t, oldId := o, extra := extra } }
+
+def applyOp (s : Sys Rat) (a : OpArgs) : Option (Except Err (Sys Rat)) :=
+  if a.name = "vacancy" then
+    -- vacancy() has no db_vect / kwargs parameters
+    if a.db.isSome || !a.kw.isEmpty then none else some (vacancy s a.pos a.ptd a.scale a.atol)
+  else if a.name = "interstitial" then
+    match a.pos, a.ptd, a.db with
+    | some p, none, none => some (interstitial s p a.scale a.atol a.kw)
+    | _, _, _ => none
+  else if a.name = "substitutional" then
+    if a.db.isSome then none else some (substitutional s a.pos a.ptd a.scale a.atol a.kw)
+  else if a.name = "dumbbell" then
+    match a.db with
+    | some d => some (dumbbell s a.pos a.ptd d a.scale a.atol a.kw)
+    | none => none
+  else if a.name.startsWith "point:" then
+    some (point s (a.name.drop 6).toString a.pos a.ptd a.db a.scale a.atol a.kw)
+  else none
+
+def step (st : Option (Sys Rat)) (toks : List String) : Option (Sys Rat) × String :=
+  match toks with
+  | "sys" :: rest =>
+    match pSys.run rest with
+    | some (s, []) => (some s, "ok " ++ dumpSys s)
+    | _ => (st, err "format")
+  | "op" :: rest =>
+    match st with
+    | none => (st, err "op")
+    | some s =>
+      match pOp.run rest with
+      | some (a, []) =>
+        match applyOp s a with
+        | none => (st, err "format")
+        | some (.error e) => (st, e.wire)
+        | some (.ok s') => (some s', "ok " ++ dumpSys s')
+      | _ => (st, err "format")
+  | "sites" :: rest =>
+    match st with
+    | none => (st, err "op")
+    | some s =>
+      match (do let p ← pV3; let sc ← pBool; let atol ← pRat; pure (p, sc, atol) : P _).run rest with
+      | some ((p, sc, atol), []) =>
+        (st, "sites " ++ " ".intercalate ((siteMatches s (toCart s sc p) atol).map toString))
+      | _ => (st, err "format")
+  | _ => (st, err "op")
+
+def main : IO Unit := runDriverS step none
